@@ -71,6 +71,33 @@ def gen_case(rng):
     return vary_masses(rng, case)
 
 
+def gen_combo_case(rng):
+    """option combinations on one molecule: a ring declared cyclic that also hosts ligands and / or has a start residue;
+    the written structure is judged like every other one (every atom of the expanded [ molecules ] section, finite)"""
+    host = systems.gen_moltype(rng, 'MA', nres=rng.randint(4, 6), shape=rng.choice(['ring', 'ring', 'path']))
+    lig = systems.gen_moltype(rng, 'LIG', nres=1, resnames=['LG'])
+    other = systems.gen_moltype(rng, 'MB', nres=rng.randint(1, 3), shape='path')
+    nlig = rng.randint(1, 2)
+    entries = [('MA', 1), ('MB', 1), ('LIG', nlig)] if rng.random() < 0.5 else [('LIG', nlig), ('MA', 1), ('MB', 1)]
+    inst = [n for n, c in entries for _ in range(c)]
+    ma = inst.index('MA')
+    ligs = [i for i, n in enumerate(inst) if n == 'LIG']
+    resids = rng.sample(range(1, host['nres'] + 1), nlig)
+    use = rng.choice([('cycles', 'lig'), ('cycles', 'lig'), ('cycles', 'lig', 'start'), ('lig', 'start'), ('cycles', 'start'), ('lig',)])
+    if host['shape'] != 'ring':
+        use = tuple(u for u in use if u != 'cycles') or ('lig',)
+    case = {'moltypes': [host, lig, other], 'molecules': entries, 'mode': 'box', 'seed': rng.randrange(10 ** 6),
+            'L': 6.0, 'L2': 7.0, 'dens': 100.0, 'nsup': 1, 'omit_mass': False, 'combo': list(use)}
+    if 'cycles' in use:
+        case['cycles'] = ['MA']
+    if 'lig' in use:
+        case['ligands'] = [[f"MA#{ma}-{host['resnames'][r - 1]}#{r}", f"LIG#{li}"] for r, li in zip(resids, ligs)]
+    if 'start' in use:
+        r = rng.randint(1, host['nres'])
+        case['start'] = [f"MA#{ma}-{host['resnames'][r - 1]}#{r}" if rng.random() < 0.5 else f"MA-{host['resnames'][r - 1]}#{r}"]
+    return case
+
+
 def vary_masses(rng, case):
     """[ atoms ] masses that differ from the atom-type mass, and massless particles (virtual sites)"""
     for mt in case['moltypes'][1 if case['omit_mass'] else 0:]:
@@ -139,8 +166,13 @@ def options(case, wd):
                       for z in np.arange(0.5, case['L'], 1.0)])
         np.savetxt(f'{wd}/grid.dat', g)
         kw['grid'] = 'grid.dat'
-    if mode == 'struct':
-        pass
+    if case.get('cycles'):
+        kw['cycles'] = list(case['cycles'])
+        kw['cycle_tol'] = 0.3
+    if case.get('ligands'):
+        kw['ligands'] = [list(x) for x in case['ligands']]
+    if case.get('start'):
+        kw['start'] = list(case['start'])
     return kw, facts
 
 
@@ -235,6 +267,7 @@ def run(ctx):
                             'run-time monitor: every coordinate finite; independent judge from the expanded [ molecules ] section']
     cases = [c for _, c in core.corpus_cases('C03')]
     cases += [gen_case(ctx.rng) for _ in range(ctx.n(36, 360))]
+    cases += [gen_combo_case(ctx.rng) for _ in range(ctx.n(8, 80))]
     if ctx.broken:
         cases = cases[:10]
     exprs, keep = [], []
@@ -259,6 +292,8 @@ def run(ctx):
                  sample={'molecules': case['molecules'], 'mode': case['mode'], 'atoms': len(res.get('rows', [])), 'box': res.get('box')})
         ctx.feature('mode_' + case['mode'])
         ctx.feature('runs_ok')
+        if case.get('combo'):
+            ctx.feature('options_' + '+'.join(case['combo']))
         if case.get('omit_mass'):
             ctx.feature('mass_from_atomtypes')
         for b in judge(case, res, facts)[:2]:
